@@ -73,6 +73,18 @@ theorem flatMap_filter_perm {γ : Type} (key : γ → β) (vs : List β) (l : Li
 
 end general
 
+/-- narrowing a list value after value = one filter by all values (any predicate family) -/
+theorem foldl_filter_all {β γ : Type} (g : γ → β → Bool) (vs : List γ) (l : List β) :
+    vs.foldl (fun acc v => acc.filter (g v)) l = l.filter (fun p => vs.all (fun v => g v p)) := by
+  induction vs generalizing l with
+  | nil => exact (List.filter_eq_self.2 (fun _ _ => rfl)).symm
+  | cons v vs ih =>
+    simp only [List.foldl_cons, List.all_cons]
+    rw [ih, List.filter_filter]
+    apply List.filter_congr
+    intro p _
+    exact Bool.and_comm _ _
+
 section setops
 variable {α : Type} [DecidableEq α] [LT α] [DecidableLT α]
 
